@@ -166,7 +166,7 @@ func c13Job(raw json.RawMessage) (interface{}, error) {
 		nl = 4
 	}
 	type lim struct {
-		plus   bool
+		plus    bool
 		c, d, m uint32
 	}
 	var lims []lim
